@@ -90,7 +90,12 @@ Section Loader.
   (* what one (pair, strategy) step writes *)
   Definition step_events (p : nat) (reads : pair) (j : nat) (f : strategy) : list event :=
     match f reads with
-    | Accept recs => write_target cfg p j recs
+    | Accept recs =>
+        match ok_prefix (touched cfg recs) with
+        | (_, None) => write_target cfg p j recs
+        | (pre, Some kind) =>
+            write_target cfg p j pre ++ (if c_rejects cfg then write_reject cfg p j (generic_texts reads kind) else [])
+        end
     | Reject reason =>
         if c_rejects cfg then
           match reject_texts rejhdr reads reason with
@@ -101,7 +106,12 @@ Section Loader.
     | Raise kind => if c_rejects cfg then write_reject cfg p j (generic_texts reads kind) else []
     end.
 
-  Definition is_accept (o : outcome) : bool := match o with Accept _ => true | _ => false end.
+  (* accepted AND written: every record write() touches could be serialised *)
+  Definition is_accept (o : outcome) : bool :=
+    match o with
+    | Accept recs => match snd (ok_prefix (touched cfg recs)) with None => true | Some _ => false end
+    | _ => false
+    end.
 
   (* the step leaves the loop with an exception: the reject record cannot be formatted *)
   Definition step_crash (reads : pair) (f : strategy) : bool :=
@@ -134,9 +144,15 @@ Section Loader.
     - cbn. now rewrite app_nil_r.
     - cbn [strat_loop steps_from yields_from existsb]. unfold step_crash at 1 3, step_events.
       destruct (f reads) as [recs|reason|kind] eqn:Hf; cbn [is_accept orb].
-      + specialize (IH (S j) (tr ++ write_target cfg p j recs) (bump j ys)).
-        destruct (strat_loop _ _ _ _ _ _ _ _) as [[tr' ys'] [|]]; [assumption|].
-        destruct IH as (H1 & H2 & H3). rewrite <- app_assoc in H2. auto.
+      + destruct (ok_prefix (touched cfg recs)) as [pre [kind|]]; cbn [snd].
+        * rewrite repaired.
+          specialize (IH (S j) (tr ++ write_target cfg p j pre ++
+                                (if c_rejects cfg then write_reject cfg p j (generic_texts reads kind) else [])) ys).
+          destruct (strat_loop _ _ _ _ _ _ _ _) as [[tr' ys'] [|]]; [assumption|].
+          destruct IH as (H1 & H2 & H3). rewrite <- app_assoc in H2. auto.
+        * specialize (IH (S j) (tr ++ write_target cfg p j recs) (bump j ys)).
+          destruct (strat_loop _ _ _ _ _ _ _ _) as [[tr' ys'] [|]]; [assumption|].
+          destruct IH as (H1 & H2 & H3). rewrite <- app_assoc in H2. auto.
       + destruct (c_rejects cfg) eqn:Hr; cbn [andb].
         * destruct (reject_texts rejhdr reads reason) as [ts|] eqn:Hts.
           -- specialize (IH (S j) (tr ++ write_reject cfg p j ts) ys).
